@@ -32,3 +32,139 @@ Theorem C01_wraparound_refuted :
     rx_out (rx_run content (M32 - 1) items) <> contents content (M32 - 1) (intact (M32 - 1) items).
 Proof. exact wraparound_replay_refuted. Qed.
 Print Assumptions C01_wraparound_refuted.
+
+(* ================================ byte level ==================================================== *)
+(* The same property on the byte-level model of the encrypted phase (Model/PacketEnc.v: the real
+   receive loop with Python slice semantics, every block size / MAC size, the four shim classes of
+   encryption.py over ABSTRACT cipher / MAC / AEAD functions; tied to the running code by the C02
+   correspondence).  The symbolic "a tag verifies only for what it was computed over" is replaced by
+   an explicit premise about the run:
+     unforgeable m slog s  :=  every (sequence number, covered bytes, tag) triple that the receiver's
+       verification accepted for a delivery of the run ending in s occurs in the honest sender's log
+       slog (covered = exactly the bytes the check of shim class m covers: Basic plain text
+       length || packet, ETM length || cipher text, GCM / chacha (encrypted) length || cipher text).
+   The adversary may flip, insert, delete, truncate, replay, reorder and splice at will; the premise
+   only says it has not minted a new valid tag on this run. *)
+From AV Require Import Model.Packet Model.PacketEnc Proofs.PacketEncProofs Proofs.PacketEncIntegrity.
+
+(* For EVERY byte stream whatsoever and EVERY chunking of it (concat chunks is the adversary's stream),
+   every shim class, block size >= 4, MAC size, start state and every list ps of fewer than 2^32
+   well-formed (payload, padding) pairs of the honest sender (no sequence number repeats within the key
+   epoch - C01_wraparound_refuted is the counterpart), with the receiver starting synchronised (same
+   sequence number and cipher state) and the primitives satisfying mode_laws: if the run is unforgeable,
+   then there is k <= |ps| such that the payloads delivered are exactly the first k payloads of the
+   sender, in order, each once, AND the stream begins with exactly the k frames the sender wrote for
+   them.  So a payload is delivered only if every byte of its frame and of all earlier frames arrived
+   unaltered and in place; nothing derived from altered bytes is delivered. *)
+Theorem C01_byte_prefix_integrity : forall (cst : Type) (cenc cdec : cst -> bytes -> cst * bytes)
+    (tag : Z -> bytes -> bytes) (gcm_enc : cst -> bytes -> bytes -> cst * (bytes * bytes))
+    (gcm_dec : cst -> bytes -> bytes -> bytes -> cst * option bytes) (cc_enc : Z -> bytes -> bytes -> bytes * bytes)
+    (cc_hdr : Z -> bytes -> bytes) (cc_dec : Z -> bytes -> bytes -> bytes -> option bytes)
+    (m : emode) (bs macsz : Z) (c0 : cst) (sq0 : Z) (ps : list (bytes * bytes)) (chunks : list bytes),
+  4 <= bs -> 0 <= macsz -> 0 <= sq0 < PacketEnc.M32 ->
+  mode_laws cst cenc cdec gcm_enc gcm_dec cc_enc cc_hdr cc_dec bs m ->
+  Forall (wf_pkt bs m) ps -> Z.of_nat (length ps) < PacketEnc.M32 ->
+  let s := fold_left (mfeed cst cdec tag gcm_dec cc_hdr cc_dec m bs macsz) chunks (einit c0 sq0) in
+  unforgeable cst cdec m (send_log cst cenc tag gcm_enc cc_enc m c0 sq0 ps) s ->
+  integrity_concl (map fst ps) (snd (send_stream cst cenc tag gcm_enc cc_enc m c0 sq0 ps)) (concat chunks) (egot s).
+Proof. exact byte_prefix_integrity. Qed.
+Print Assumptions C01_byte_prefix_integrity.
+
+(* (a) First deviation.  Whenever a run satisfies the conclusion above and the stream does NOT begin
+   with the sender's first j+1 frames - it deviates from the honest wire no later than inside frame j,
+   by a flipped bit, an inserted or deleted byte, a truncation, anything - at most the first j
+   payloads are delivered: detection no later than when the affected packet is complete. *)
+Theorem C01_byte_first_deviation : forall (payloads ws : list bytes) (stream : bytes) (delivered : list bytes) (j : nat),
+  integrity_concl payloads ws stream delivered ->
+  (forall t, stream <> concat (firstn (S j) ws) ++ t) ->
+  exists k, (k <= j)%nat /\ delivered = firstn k payloads.
+Proof. exact integrity_first_deviation. Qed.
+Print Assumptions C01_byte_first_deviation.
+
+(* (b) Replay / reorder / drop / splice of whole frames.  If after the first j honest frames comes
+   anything that does not begin with the bytes of honest frame j (an earlier frame again, a later
+   frame, a frame made for another sequence number, the end of the stream), nothing beyond payload
+   j-1 is ever delivered - the out-of-place frame is not skipped over. *)
+Theorem C01_byte_replay_reorder : forall (payloads ws : list bytes) (stream : bytes) (delivered : list bytes)
+    (j : nat) (wj x : bytes),
+  integrity_concl payloads ws stream delivered ->
+  nth_error ws j = Some wj -> stream = concat (firstn j ws) ++ x -> (forall t, x <> wj ++ t) ->
+  exists k, (k <= j)%nat /\ delivered = firstn k payloads.
+Proof. exact integrity_out_of_place. Qed.
+Print Assumptions C01_byte_replay_reorder.
+
+(* Non-vacuity: the toy primitives (the ones the harness installs in the real shim classes) satisfy
+   mode_laws for every mode, so for the toy-instantiated model only the unforgeability premise is left. *)
+Theorem C01_byte_toy_prefix_integrity : forall m bs tl k c0 sq0 ps chunks,
+  4 <= bs -> 0 <= sq0 < PacketEnc.M32 -> Forall (wf_pkt bs m) ps -> Z.of_nat (length ps) < PacketEnc.M32 ->
+  let s := fold_left (toy_feed m bs tl k) chunks (einit c0 sq0) in
+  toy_unforgeable m k (toy_send_log m tl k c0 sq0 ps) s ->
+  integrity_concl (map fst ps) (snd (toy_send_stream m tl k c0 sq0 ps)) (concat chunks) (egot s).
+Proof. exact toy_byte_prefix_integrity. Qed.
+Print Assumptions C01_byte_toy_prefix_integrity.
+
+Theorem C01_byte_toy_premise_decidable : forall m k slog s,
+  toy_unforgeable_b m k slog s = true -> toy_unforgeable m k slog s.
+Proof. exact toy_unforgeable_b_sound. Qed.
+Print Assumptions C01_byte_toy_premise_decidable.
+
+(* concrete runs, all four modes, block size 16, 4-byte toy tag: (1) one bit flipped in the second
+   frame, (2) first frame replayed, (3) frames swapped.  The runs ARE unforgeable (the premise holds:
+   the toy tag rejects what it was not computed over here), exactly the payloads before the deviation
+   are delivered, and the connection ends in MAC failure - or, for a replayed / swapped frame under
+   Basic and chacha, whose length field is decrypted with the wrong cipher state / sequence number
+   into garbage, it may instead wait for more bytes for ever ("can stall the stream but not change it");
+   with a clear-text length (ETM, GCM) it is always the MAC failure. *)
+Fixpoint flip_at (n : nat) (l : bytes) : bytes :=
+  match l, n with
+  | [], _ => []
+  | b :: r, O => Z.lxor b 16 :: r
+  | b :: r, S n' => b :: flip_at n' r
+  end.
+
+Fixpoint chop3 (l : bytes) (fuel : nat) : list bytes :=
+  match fuel with
+  | O => [l]
+  | S f => match l with [] => [] | _ => firstn 3 l :: chop3 (skipn 3 l) f end
+  end.
+
+Definition is_mac_failure (s : estatus) : bool := match s with SMac => true | _ => false end.
+Definition is_clear_len (m : emode) : bool := match m with ETM | GCM => true | _ => false end.
+
+Example C01_byte_toy_runs :
+  forallb (fun m =>
+    let pkts := [([2; 0; 0; 0; 1; 65], [9; 8; 7; 6; 5; 4; 3; 2; 1; 0] ++ (if hdrlen m =? 5 then [] else [1; 2; 3; 4]));
+                 ([4; 1; 0; 0; 0; 0; 0; 0; 0; 0], [1; 2; 3; 4; 5; 6] ++ (if hdrlen m =? 5 then [] else [1; 2; 3; 4]))] in
+    let slog := toy_send_log m 4 7 100 4294967295 pkts in
+    match snd (toy_send_stream m 4 7 100 4294967295 pkts) with
+    | [w0; w1] =>
+        forallb (fun x : bytes * list bytes =>
+          let s := fold_left (toy_feed m 16 4 7) (chop3 (fst x) 100) (einit 100 4294967295) in
+          toy_unforgeable_b m 7 slog s && list_eqb zlist_eqb (egot s) (snd x) &&
+          (is_mac_failure (est s) || negb (is_clear_len m) && (0 <? zlen (ebuf s))))
+          [(w0 ++ flip_at 9 w1, [[2; 0; 0; 0; 1; 65]]);
+           (w0 ++ w0 ++ w1, [[2; 0; 0; 0; 1; 65]]);
+           (w1 ++ w0, [])]
+    | _ => false
+    end) [Basic; ETM; GCM; Chacha] = true.
+Proof. vm_compute. reflexivity. Qed.
+
+(* The premise is what carries the result: the toy tag is forgeable by construction, and an
+   adversary who recomputes it (here: frames the altered payload exactly as the sender would) gets the
+   altered payload delivered - the run is not unforgeable and the delivered list is no prefix of what
+   was sent. *)
+Theorem C01_byte_forgery_refuted :
+  exists (ps : list (bytes * bytes)) (stream : bytes),
+    Forall (wf_pkt 16 ETM) ps /\
+    let s := toy_feed ETM 16 4 7 (einit 0 0) stream in
+    toy_unforgeable_b ETM 7 (toy_send_log ETM 4 7 0 0 ps) s = false /\
+    forall k, egot s <> firstn k (map fst ps).
+Proof.
+  exists [([2; 0; 0; 0; 1; 65], [1; 2; 3; 4; 5; 6; 7; 8; 9])],
+         (snd (toy_send_frame ETM 4 7 0 0 [2; 0; 0; 0; 1; 66] [1; 2; 3; 4; 5; 6; 7; 8; 9])).
+  split.
+  - constructor; [|constructor]. unfold wf_pkt. cbn [fst snd]. repeat split; vm_compute; try reflexivity; discriminate.
+  - split; [vm_compute; reflexivity|]. intros [|k]; vm_compute; [discriminate|].
+    destruct k; vm_compute; discriminate.
+Qed.
+Print Assumptions C01_byte_forgery_refuted.
